@@ -301,6 +301,33 @@ func c10rbGenCase(r *rand.Rand) *c10rbCase {
 		}
 	}
 	c.After = c10rbGenOps(r, r.IntN(4), names, nScopes, &stored)
+	// The serving generation has published NOTHING (its tracker is exactly empty: no domain rule matches
+	// a cached name, or nothing is cached yet) while the failed generation, whose rules do match, or a
+	// foreign writer filled the table: the rollback still has to empty it.
+	if r.IntN(5) == 0 {
+		if r.IntN(3) != 0 {
+			c.Prog = "routing {\n  dport(1001) -> direct\n  dip(10.0.0.0/8) -> " + verifGroups[1] + "\n  fallback: direct\n}\n"
+		} else {
+			c.Before = nil
+			stored = nil
+			c.After = c10rbGenOps(r, r.IntN(4), names, nScopes, &stored)
+		}
+		if r.IntN(2) == 0 {
+			c.FailedProg = "routing {\n  domain(suffix: test) -> " + verifGroups[0] + "\n  fallback: direct\n}\n"
+		}
+		if c.Mode == "untouched" {
+			c.Mode = c10rbModes[r.IntN(3)]
+			if strings.Contains(c.Mode, "foreign-entries") && len(c.Garbage) == 0 {
+				pool := append(append(append([]string(nil), c10rbV4[1:]...), c10rbV6[1:]...), c10rbForeign...)
+				for _, i := range r.Perm(len(pool))[:1+r.IntN(4)] {
+					g := c10rbGarbage{Addr: pool[i]}
+					g.bm[0] = 1 << uint(r.IntN(32))
+					g.Bitmap = c10BmStr(g.bm)
+					c.Garbage = append(c.Garbage, g)
+				}
+			}
+		}
+	}
 	return c
 }
 
@@ -675,6 +702,20 @@ func (env *c10rbEnv) run(c *c10rbCase) (out c10rbOutcome, err error) {
 	if preDiff.bad() {
 		m.Count("table_differed_from_cache_when_rollback_started", 1)
 	}
+	if len(want.R) == 0 && len(pre) > 0 { // reference side only: the live cache demands an EMPTY table
+		what := "foreign-entries"
+		if committed && len(c.Garbage) == 0 {
+			what = "entries-of-the-failed-generation"
+		} else if committed {
+			what = "entries-of-the-failed-generation+foreign-entries"
+		}
+		m.Count("rollback_started_with_nothing_published_by_serving_generation_and_a_non_empty_table/"+what, 1)
+		if len(want.listed) > 0 {
+			m.Count("rollback_started_with_only_zero_bitmap_entries_cached_and_a_non_empty_table", 1)
+		} else {
+			m.Count("rollback_started_with_empty_cache_and_a_non_empty_table", 1)
+		}
+	}
 
 	// (3) the real function
 	var rerr error
@@ -823,6 +864,9 @@ func TestVerifC10Rollback(t *testing.T) {
 	m.Require("rebuild_calls", "rebuild_returned_nil", "nontrivial_cases", "cases_with_non_zero_bitmaps_in_table", "cases_with_address_shared_by_several_owners",
 		"cases_with_shared_address_of_owners_with_different_bitmaps", "cases_with_zero_bitmap_entries", "rebuilds_that_had_to_repair_a_differing_table",
 		"failed_generations_committed_their_datapath", "failed_generation_left_a_non_empty_table", "foreign_table_entries_written", "mode/untouched",
+		"rollback_started_with_nothing_published_by_serving_generation_and_a_non_empty_table/entries-of-the-failed-generation",
+		"rollback_started_with_nothing_published_by_serving_generation_and_a_non_empty_table/foreign-entries",
+		"rollback_started_with_only_zero_bitmap_entries_cached_and_a_non_empty_table",
 		"lpm_tries_in_serving_program", "checks/after-RebuildReloadDatapath", "checks/after-ops-following-the-rollback", "table_addresses_equal_to_cache", "op/remove")
 	m.Done(t)
 }
